@@ -835,6 +835,7 @@ def unbox_RecordView(recordviewtype, recordobj, c):
     proxyout.at = c.pyapi.number_as_ssize_t(at_obj)
 
     c.pyapi.decref(recordview_obj)
+    c.pyapi.decref(arrayview_obj)
     c.pyapi.decref(at_obj)
 
     if c.context.enable_nrt:
